@@ -264,6 +264,22 @@ static void check_against(var table, const int* pres, const int64_t* vals, int n
   }
   if (steps > limit) { vh_violation(KEY("iteration-does-not-end"), "more than len+2 steps after %s", after); }
   else if (steps != (size_t)n) { vh_violation(KEY("iteration-count"), "iteration yields %zu keys, reference %d after %s", steps, n, after); }
+  /* and from the other end: the walk from iter_last through iter_prev yields every key exactly once as well */
+  memset(seen, 0, sizeof(int) * (size_t)U);
+  steps = 0;
+  it = iter_last(table);
+  while (it != Terminal && steps <= limit) {
+    steps++;
+    int id = key_to_id(it);
+    vh_eval();
+    if (id < 0) { vh_violation(KEY("backward-iteration-unknown-key"), "backward iteration step %zu yields a key outside the universe after %s", steps, after); break; }
+    if (seen[id]++) { vh_violation(KEY("backward-iteration-repeats-key"), "backward iteration yields key %d twice after %s", id, after); break; }
+    if (!pres[id]) { vh_violation(KEY("backward-iteration-yields-unbound-key"), "backward iteration yields key %d which is not bound after %s", id, after); }
+    it = iter_prev(table, it);
+  }
+  if (steps > limit) { vh_violation(KEY("backward-iteration-does-not-end"), "more than len+2 backward steps after %s", after); }
+  else if (steps != (size_t)n) { vh_violation(KEY("backward-iteration-count"), "backward iteration yields %zu keys, reference %d after %s", steps, n, after); }
+  if (n == 1) { struct Table* tb = table; if (tb->nslots > 0 && Table_Key_Hash(tb, 0) != 0) { vh_count("single_entry_tables_with_the_entry_in_slot_0"); } }
   #undef KEY
 }
 
